@@ -778,10 +778,14 @@ def run_c13(ctx):
             if r2x.startswith('OK'):
                 continue
         k = key
+        import re as _re
+        mj = _re.search(r'join=(\d+)', m.get('op') or '')
         if lobe_known(m, conf):
             k = LOBE_KEY
         elif conf and bits >= 32:
             k = OVERFLOW_KEY
+        elif (m.get('op') or '').startswith('InflatePaths64') and mj and int(mj.group(1)) == 1 and max(abs(x) for x in m['v']) >= 2 ** 47:
+            k = 'offset-square-join-absolute-coordinates'   # Square joins, translation beyond 2^47
         v = {'key': k, 'kind': 'magnitude', 'detail': {'corpus_entry': entry, 'checker': res, 'confirmed': conf, 'max_difference_bits': bits}}
         if conf:
             v['text'] = '%s (clip type %d, fill rule %d): region differs at point (%s, %s), windings %s; largest coordinate difference has %d bits' % (what, ct, fr, conf['point'][0], conf['point'][1], conf['windings'], bits)
